@@ -161,7 +161,11 @@ func main() {
 	deadline := flag.Int("deadline", 0, "override the internal deadline in seconds")
 	free := flag.Int("free", 0, "conformance pass: run every scenario of the DAG family this many times free-running (use the -race build)")
 	lit := flag.Bool("litmus", false, "validate the runtime's channel/mutex/select model against Go (exhaustive vs. free running)")
+	por := flag.Int("pordebug", 0, "development aid: sleep-set statistics for the first N scenarios of a DAG family")
 	flag.Parse()
+	if *por > 0 {
+		os.Exit(porDebug(*id, *por))
+	}
 	if *lit {
 		os.Exit(runLitmus())
 	}
